@@ -31,8 +31,9 @@
 (*   C13.Readable  the same on the replayed state without a crash          *)
 (*   C13.ReadComplete  a Fetch of the real backend returned something not  *)
 (*       admissible (concurrent readers: old or new complete object)       *)
-(*   C13.Confined  a successful create / write / rename / unlink / mkdir / *)
-(*       chmod outside the configured directory                            *)
+(*   C13.Confined  a successful create / write / rename / unlink / chmod /  *)
+(*       set-flags outside of, or on, the configured directory itself; a   *)
+(*       mkdir outside it (its ancestors and itself may be made)           *)
 (*   C13.Immutable.IdenticalOk / .DifferentFails / .Unchanged / .Returns   *)
 (*       after an immutable upload returned ok: identical re-upload ok,    *)
 (*       different one fails and leaves the object unchanged, and the      *)
@@ -104,13 +105,19 @@ ReadViol(T, U, t, crashed) ==
 Under(p) == IsPrefixP(scen.conf, p)
 Mutating(fl) == fl \cap {"O_CREAT", "O_WRONLY", "O_RDWR", "O_TRUNC", "O_APPEND", "O_TMPFILE"} # {}
 
+\* strictly inside: the configured directory itself may be made (mkdir, also its
+\* ancestors) but is never replaced, written, renamed, removed or re-flagged
+Inside(p) == Under(p) /\ Len(p) > Len(scen.conf)
+FdInside(fd) == fd \notin DOMAIN S.fds \/ Inside(S.fds[fd].path)
+
 ConfinedViol ==
     IF e.ret < 0 THEN {} ELSE
-    CASE e.name = "open" -> F("C13.Confined", ~Mutating(SeqRange(e.flags)) \/ Under(e.path))
-      [] e.name = "write" -> F("C13.Confined", e.fd \notin DOMAIN S.fds \/ Under(S.fds[e.fd].path))
-      [] e.name = "rename" -> F("C13.Confined", Under(e.path2) /\ Under(e.path))
+    CASE e.name = "open" -> F("C13.Confined", ~Mutating(SeqRange(e.flags)) \/ Inside(e.path))
+      [] e.name \in {"write", "fchmod", "setflags"} -> F("C13.Confined", FdInside(e.fd))
+      [] e.name = "rename" -> F("C13.Confined", Inside(e.path2) /\ Inside(e.path))
       [] e.name = "mkdir" -> F("C13.Confined", Under(e.path) \/ IsPrefixP(e.path, scen.conf))
-      [] e.name \in {"unlink", "chmod", "unsupported"} -> F("C13.Confined", e.path = <<>> \/ Under(e.path))
+      [] e.name \in {"unlink", "chmod"} -> F("C13.Confined", Inside(e.path))
+      [] e.name = "unsupported" -> F("C13.Confined", e.path = <<>> \/ Inside(e.path))
       [] OTHER -> {}
 
 Outside(p) == Len(p) > 0 /\ p[1] = "<outside>"
